@@ -8,7 +8,9 @@ Binding (schedule replay, B3): the harness, built with the Go race detector, run
 with a font configuration each; a render executes its next phase (tree.NewHTML / document.Render / Document.Write on the
 recording backend) when the schedule names it, the next step being released as soon as the previous one has started, so
 that phases overlap; every render's backend-call digest must equal the digest obtained by rendering its document alone in
-a fresh process; a race report kills the worker and is a verdict. Sequential schedules cover "after any history of
+a fresh process; a race report kills the worker and is a verdict. The schedules with overlapping layouts of every pair of documents, and
+the whole pool at once, also run in a process of their own each (pristine process-wide tables, as in the model's initial
+state). Sequential schedules cover "after any history of
 previous renders". Determinism at large: documents of the Flow.tla generator are rendered 4 times in one process and must
 give identical calls.
 Also: every 1-node document of Docs.tla (the C01 alphabet of ~140 feature bundles) and the 2-node documents over the core
@@ -25,7 +27,7 @@ CFG = """CONSTANTS
   NDocs = %d
   SharedCache = %s
 %s
-INVARIANTS GlobalsUnchanged Isolation Deterministic Emit
+INVARIANTS GlobalsUnchanged LazyValue Isolation Deterministic Emit
 %s
 CHECK_DEADLOCK FALSE
 """
@@ -62,13 +64,18 @@ def run(ctx):
     cov["shared_cache_model_violates_Isolation"] = True
     os.remove(res.out_path)
 
-    def replay(res, name):
-        scn, cnt, first = ctx.scenario_lines(res)
-        if cnt == 0:
-            raise MachineryError("no schedule generated (%s)" % name)
-        ctx.samples.extend(first[-1:])
+    def overlapping(sc):
+        # the layout steps (second step of each render) are consecutive: the layouts run at the same time
+        seen, pos = {}, []
+        for k, r in enumerate(sc["sched"]):
+            seen[r] = seen.get(r, 0) + 1
+            if seen[r] == 2:
+                pos.append(k)
+        return max(pos) - min(pos) == len(pos) - 1
+
+    def run_sched(path, cnt, name, perproc):
         ver = os.path.join(ctx.scratch, "ver_%s.ndjson" % name)
-        ctx.vdrive(["c15sched", "-refs", refp, "-in", scn, "-out", ver], race=True)
+        ctx.vdrive(["c15sched", "-refs", refp, "-in", path, "-out", ver, "-timeout", "120s"] + (["-perproc", "1"] if perproc else []), race=True)
         summ = ctx.consume_verdicts(ver)
         c = summ.get("counts", {})
         # a worker killed by the race detector (a verdict) loses the schedule it was running
@@ -77,9 +84,41 @@ def run(ctx):
         os.remove(ver)
         return {"schedules": cnt, "renders": c.get("renders", 0)}
 
-    # every interleaving of 2 renders x every pair of documents
-    res = ctx.tlc("Render", None, workers=8, cfg_text=CFG % (2, ndocs, "FALSE", "SPECIFICATION Spec", "PROPERTIES Terminates"), timeout=3000)
+    def replay(res, name):
+        """schedules with fresh = FALSE ("after any history of renders") run in the worker pool; those with fresh = TRUE (the
+        lazily filled process-wide tables are empty) in a process of their own each - in the quick tier only the ones whose
+        layouts overlap, for the unordered pairs of documents."""
+        scn, cnt, first = ctx.scenario_lines(res)
+        if cnt == 0:
+            raise MachineryError("no schedule generated (%s)" % name)
+        ctx.samples.extend(first[-1:])
+        pooled, fresh = scn + ".pooled", scn + ".fresh"
+        np_, nf = 0, 0
+        with open(pooled, "w") as fp, open(fresh, "w") as ff:
+            for line in open(scn):
+                sc = json.loads(line)
+                if not sc.get("fresh"):
+                    fp.write(line); np_ += 1
+                elif thorough or (overlapping(sc) and (len(sc["docs"]) > 2 or sc["docs"] == sorted(sc["docs"]))):
+                    ff.write(line); nf += 1
+        if name == "r2" and (np_ == 0 or nf == 0):
+            raise MachineryError("schedules of one kind missing (%s): pooled %d, fresh %d" % (name, np_, nf))
+        out = run_sched(pooled, np_, name + "p", False) if np_ else {"renders": 0}
+        o2 = run_sched(fresh, nf, name + "f", True) if nf else {"renders": 0}
+        return {"schedules": np_ + nf, "renders": out["renders"] + o2["renders"], "in_a_fresh_process_each": nf}
+
+    # every interleaving of 2 renders x every pair of documents x {fresh process, after other renders}
+    res = ctx.tlc("Render", None, workers=8, cfg_text=CFG % (2, ndocs, "FALSE", "SPECIFICATION Spec", "PROPERTIES Terminates LazyStable"), timeout=3000)
     cov["2-renders-all-interleavings"] = replay(res, "r2")
+    # the whole pool at once, in a fresh process
+    fresh = os.path.join(ctx.scratch, "all.ndjson")
+    nfresh = 0
+    with open(fresh, "w") as f:
+        for rot in range(ndocs if thorough else 2):
+            docs = [(k + rot) % ndocs + 1 for k in range(ndocs)]
+            f.write(json.dumps({"docs": docs, "sched": [r + 1 for ph in range(3) for r in range(ndocs)]}) + "\n")
+            nfresh += 1
+    cov["whole-pool-at-once"] = run_sched(fresh, nfresh, "all", True)
     # 3 renders: sampled
     res = ctx.tlc("Render", None, workers=8, cfg_text=CFG % (3, ndocs, "FALSE", "INIT Init\nNEXT Next", ""), simulate="num=%d" % (40 if not thorough else 1500), depth=12, timeout=3000)
     cov["3-renders-sampled"] = replay(res, "r3")
@@ -120,7 +159,7 @@ def run(ctx):
     ctx.traces = sum(v.get("schedules", 0) for v in cov.values() if isinstance(v, dict))
     return ctx.finish("model_checking", {
         "exhaustive": True, "evaluations": sum(v.get("renders", 0) for v in cov.values() if isinstance(v, dict)), "families": cov,
-        "rule": "every interleaving of the 3 phases of 2 renders x every ordered pair of pool documents ; seeded samples of 3 (and 4) "
+        "rule": "every interleaving of the 3 phases of 2 renders x every ordered pair of pool documents x {after other renders (worker pool), fresh process (one process per schedule; quick tier: overlapping layouts of unordered pairs)}; the whole pool at once in a fresh process; seeded samples of 3 (and 4) "
                 "renders; pool of 10 documents (anchors and links, broken floats, counters, tables with header/footer, columns and flex, named strings and bookmarks, "
                 "hyphenation and ex/ch units, positioned and running elements, two documents binding one font family name to different fonts with @font-face); Flow.tla documents rendered 4 times each; "
                 "every 1-node document of Docs.tla (all feature bundles x 2 geometries x 2 extras) and the 2-node documents over the core bundles rendered 3 times each",
